@@ -14,7 +14,7 @@ class Check(RuntimeCheck):
         from .macro_common import MacroCheck
         class Generated(MacroCheck):
             prop = 'C07'
-            case_prefixes = ('ref.default', 'mut.default', 'own.default', 'own.m2+default', 'pin.m2+default', 'ref.unmock', 'async.unmock')
+            case_prefixes = ('ref.default', 'mut.default', 'own.default', 'own.m2+default', 'pin.m2+default', 'ref.unmock', 'async.unmock')      # incl. ref.default.unmentioned.debug-not-rendered, ref.unmock.fallthrough.debug-not-rendered, ref.default.hidden-api
             facts_of_interest = r'(arm Unmock|arm CallDefaultImpl|call unmock|call default|arm any|default_impl|partial)'
         Generated().explore_into(rep, tier, seed, ir=True, merge=True)
 
